@@ -1,6 +1,38 @@
--- shard 23 of the closeness / tick-gap sweep (C06 (c), (e)): |tick| in [753664, 786432)
+-- shard 23 of the closeness / tick-gap sweep (C06 (c), (e)): |tick| in [753664, 786432), 16 blocks of 2^11
 import Proofs.Lemmas.ClosePred
 namespace Demeter.TickClose
 set_option maxRecDepth 100000 in
-theorem close_shard_23 : chkN closeSweepPred 753664 shardBits = true := by decide +kernel
+theorem close_blk_753664 : chkN closeSweepPred 753664 11 = true := by decide +kernel
+set_option maxRecDepth 100000 in
+theorem close_blk_755712 : chkN closeSweepPred 755712 11 = true := by decide +kernel
+set_option maxRecDepth 100000 in
+theorem close_blk_757760 : chkN closeSweepPred 757760 11 = true := by decide +kernel
+set_option maxRecDepth 100000 in
+theorem close_blk_759808 : chkN closeSweepPred 759808 11 = true := by decide +kernel
+set_option maxRecDepth 100000 in
+theorem close_blk_761856 : chkN closeSweepPred 761856 11 = true := by decide +kernel
+set_option maxRecDepth 100000 in
+theorem close_blk_763904 : chkN closeSweepPred 763904 11 = true := by decide +kernel
+set_option maxRecDepth 100000 in
+theorem close_blk_765952 : chkN closeSweepPred 765952 11 = true := by decide +kernel
+set_option maxRecDepth 100000 in
+theorem close_blk_768000 : chkN closeSweepPred 768000 11 = true := by decide +kernel
+set_option maxRecDepth 100000 in
+theorem close_blk_770048 : chkN closeSweepPred 770048 11 = true := by decide +kernel
+set_option maxRecDepth 100000 in
+theorem close_blk_772096 : chkN closeSweepPred 772096 11 = true := by decide +kernel
+set_option maxRecDepth 100000 in
+theorem close_blk_774144 : chkN closeSweepPred 774144 11 = true := by decide +kernel
+set_option maxRecDepth 100000 in
+theorem close_blk_776192 : chkN closeSweepPred 776192 11 = true := by decide +kernel
+set_option maxRecDepth 100000 in
+theorem close_blk_778240 : chkN closeSweepPred 778240 11 = true := by decide +kernel
+set_option maxRecDepth 100000 in
+theorem close_blk_780288 : chkN closeSweepPred 780288 11 = true := by decide +kernel
+set_option maxRecDepth 100000 in
+theorem close_blk_782336 : chkN closeSweepPred 782336 11 = true := by decide +kernel
+set_option maxRecDepth 100000 in
+theorem close_blk_784384 : chkN closeSweepPred 784384 11 = true := by decide +kernel
+theorem close_shard_23 : chkN closeSweepPred 753664 shardBits = true :=
+  (chkN_join _ 753664 14 (chkN_join _ 753664 13 (chkN_join _ 753664 12 (chkN_join _ 753664 11 close_blk_753664 close_blk_755712) (chkN_join _ 757760 11 close_blk_757760 close_blk_759808)) (chkN_join _ 761856 12 (chkN_join _ 761856 11 close_blk_761856 close_blk_763904) (chkN_join _ 765952 11 close_blk_765952 close_blk_768000))) (chkN_join _ 770048 13 (chkN_join _ 770048 12 (chkN_join _ 770048 11 close_blk_770048 close_blk_772096) (chkN_join _ 774144 11 close_blk_774144 close_blk_776192)) (chkN_join _ 778240 12 (chkN_join _ 778240 11 close_blk_778240 close_blk_780288) (chkN_join _ 782336 11 close_blk_782336 close_blk_784384))))
 end Demeter.TickClose
